@@ -1,5 +1,6 @@
 import SJ.Proofs.Pipeline
 import SJ.Proofs.PipelineLive
+import SJ.Proofs.PipelineOutcome
 import SJ.Generated.Consts
 import SJ.Generated.GoFacts
 /-
@@ -12,18 +13,18 @@ open SJ.Pipeline SJ.Generated
 /-- For every schedule (every list of atomic steps that is a run of the hand-off protocol), with
     `cap + 2 ≤ slots`, every index buffer the consumer may still read — the one it holds and every one sent
     but not yet given up — still carries exactly what the producer stored in it. -/
-theorem C07_no_overwrite (c : Cfg) (hc : c.cap + 2 ≤ c.slots) (evs : List Ev) (s : St)
+theorem C07_no_overwrite (c : Pipeline.Cfg) (hc : c.cap + 2 ≤ c.slots) (evs : List Ev) (s : Pipeline.St)
     (hr : run c {} evs = some s) : Safe c s :=
   safe_of_inv (inv_run c hc evs {} s (inv_init c) hr)
 
 /-- The consumer's receive sequence is the producer's send sequence: the k-th receive finds the k-th buffer
     (nothing lost, repeated or stale), for every schedule. -/
-theorem C07_refines_fifo (c : Cfg) (hc : c.cap + 2 ≤ c.slots) (evs : List Ev) (s : St)
+theorem C07_refines_fifo (c : Pipeline.Cfg) (hc : c.cap + 2 ≤ c.slots) (evs : List Ev) (s : Pipeline.St)
     (hr : run c {} evs = some s) : ∀ p ∈ s.seen, p.2 = some p.1 ∧ p.1 < s.recvd :=
   (inv_run c hc evs {} s (inv_init c) hr).seen
 
 /-- The channel never holds more buffers than its capacity and the producer is at most one buffer ahead. -/
-theorem C07_bounded (c : Cfg) (hc : c.cap + 2 ≤ c.slots) (evs : List Ev) (s : St)
+theorem C07_bounded (c : Pipeline.Cfg) (hc : c.cap + 2 ≤ c.slots) (evs : List Ev) (s : Pipeline.St)
     (hr : run c {} evs = some s) : s.sent - s.recvd ≤ c.cap ∧ s.acquired ≤ s.sent + 1 :=
   let h := inv_run c hc evs {} s (inv_init c) hr
   ⟨h.queue, h.acq_hi⟩
@@ -31,24 +32,39 @@ theorem C07_bounded (c : Cfg) (hc : c.cap + 2 ≤ c.slots) (evs : List Ev) (s : 
 /-- **Schedule independence.** Two complete executions (terminator received) in which stage 1 sent the same
     number of buffers — the input alone determines that — hand stage 2 exactly the same sequence of buffers with
     the same contents, whatever the two interleavings were; stage 2 is a deterministic function of that sequence. -/
-theorem C07_schedule_independent (c : Cfg) (hc : c.cap + 2 ≤ c.slots) (evs₁ evs₂ : List Ev) (s₁ s₂ : St)
+theorem C07_schedule_independent (c : Pipeline.Cfg) (hc : c.cap + 2 ≤ c.slots) (evs₁ evs₂ : List Ev) (s₁ s₂ : Pipeline.St)
     (h₁ : run c {} evs₁ = some s₁) (h₂ : run c {} evs₂ = some s₂)
     (t₁ : s₁.termRecv = true) (t₂ : s₂.termRecv = true) (hn : s₁.sent = s₂.sent) : s₁.seen = s₂.seen :=
   schedule_independent c hc evs₁ evs₂ s₁ s₂ h₁ h₂ t₁ t₂ hn
 
 /-- The receive history is exactly buffers 0 … recvd−1 in order, each with its own contents. -/
-theorem C07_seen_exact (c : Cfg) (hc : c.cap + 2 ≤ c.slots) (evs : List Ev) (s : St) (hr : run c {} evs = some s) :
+theorem C07_seen_exact (c : Pipeline.Cfg) (hc : c.cap + 2 ≤ c.slots) (evs : List Ev) (s : Pipeline.St) (hr : run c {} evs = some s) :
     s.seen = ((List.range s.recvd).map fun k => (k, some k)).reverse := seen_exact c hc evs s hr
+
+/-- **Outcome = the sequential composition, for every schedule.** Interpreting the stamp of a slot as the buffer
+    stage 1 stored there (`bufs[k]` = the k-th round of `rounds msg idx`), a complete run in which stage 1 sent all
+    of `bufs` lets stage 2 read exactly `bufs`, in order; its outcome — `goto fail`, or tape and string buffer —
+    is therefore `stage2 cfg buf bufs`, the value the sequential model computes, whatever the interleaving. -/
+theorem C07_outcome_sequential (c : Pipeline.Cfg) (hc : c.cap + 2 ≤ c.slots) (evs : List Ev) (s : Pipeline.St) (hr : run c {} evs = some s)
+    (ht : s.termRecv = true) (bufs : Array (Array Nat)) (hn : s.sent = bufs.size) (cfg : SJ.Cfg) (buf : SJ.Bytes) :
+    consumed bufs s = bufs.toList ∧ SJ.stage2 cfg buf (consumed bufs s).toArray = SJ.stage2 cfg buf bufs :=
+  outcome_sequential c hc evs s hr ht bufs hn cfg buf
+
+/-- When stage 2 gives up early it has looked at a prefix of the buffers, the same prefix under every schedule
+    that delivers as many buffers. -/
+theorem C07_consumed_prefix (c : Pipeline.Cfg) (hc : c.cap + 2 ≤ c.slots) (evs : List Ev) (s : Pipeline.St) (hr : run c {} evs = some s)
+    (bufs : Array (Array Nat)) (hn : s.sent ≤ bufs.size) : consumed bufs s = bufs.toList.take s.recvd :=
+  consumed_prefix c hc evs s hr bufs hn
 
 /-- **No deadlock**: in every reachable state before the terminator is received some step is enabled — the
     producer can always hand over or terminate (also after a stage-1 error, abandoning the buffer it was filling),
     a consumer that failed and only drains can always go on draining. -/
-theorem C07_no_deadlock (c : Cfg) (hc : c.cap + 2 ≤ c.slots) (hcap : 1 ≤ c.cap) (evs : List Ev) (s : St)
+theorem C07_no_deadlock (c : Pipeline.Cfg) (hc : c.cap + 2 ≤ c.slots) (hcap : 1 ≤ c.cap) (evs : List Ev) (s : Pipeline.St)
     (hr : run c {} evs = some s) (ht : s.termRecv = false) : ∃ e, (step c s e).isSome = true :=
   progress c hcap s (inv_run c hc evs {} s (inv_init c) hr) ht
 
 /-- **Termination**: a run in which stage 1 fills at most `n` buffers has at most `4n + 3` steps. -/
-theorem C07_terminates (c : Cfg) (hc : c.cap + 2 ≤ c.slots) (evs : List Ev) (s : St) (hr : run c {} evs = some s)
+theorem C07_terminates (c : Pipeline.Cfg) (hc : c.cap + 2 ≤ c.slots) (evs : List Ev) (s : Pipeline.St) (hr : run c {} evs = some s)
     (n : Nat) (hn : s.acquired ≤ n) : evs.length ≤ 4 * n + 3 := bounded_length c hc evs s hr n hn
 
 /-- The constants of the repository (regenerated on every run) satisfy the premise. -/
